@@ -45,6 +45,10 @@ func buildGroovyMap(pathExprCtx *parser.PathExpressionContext) []core_domain.Cod
 			return nil
 		}
 	}
+	// a statement that is a lone expression (a literal, a comment the lexer reads as a slashy string) has no second child
+	if pathExprCtx.GetChildCount() < 2 {
+		return nil
+	}
 	pathChild := pathExprCtx.GetChild(1)
 	if pathChild != nil {
 		pathElement := pathChild.(*parser.PathElementContext)
@@ -63,7 +67,12 @@ func buildGroovyMap(pathExprCtx *parser.PathExpressionContext) []core_domain.Cod
 
 func buildBlockStatements(closureContext *parser.ClosureContext) []core_domain.CodeDependency {
 	var results []core_domain.CodeDependency
-	statementsContext := closureContext.BlockStatementsOpt().(*parser.BlockStatementsOptContext).BlockStatements().(*parser.BlockStatementsContext)
+	blockStatements := closureContext.BlockStatementsOpt().(*parser.BlockStatementsOptContext).BlockStatements()
+	if blockStatements == nil {
+		// dependencies { } declares nothing
+		return results
+	}
+	statementsContext := blockStatements.(*parser.BlockStatementsContext)
 	for _, blockStatement := range statementsContext.AllBlockStatement() {
 		var result *core_domain.CodeDependency = nil
 
